@@ -833,6 +833,10 @@ def pattern_i32toi16(context, tree, c0):
 @thumb_isa.pattern("reg", "U8TOI32(reg)", size=0)
 @thumb_isa.pattern("reg", "I8TOU32(reg)", size=0)
 @thumb_isa.pattern("reg", "U8TOU32(reg)", size=0)
+@thumb_isa.pattern("reg", "I8TOI16(reg)", size=0)
+@thumb_isa.pattern("reg", "U8TOI16(reg)", size=0)
+@thumb_isa.pattern("reg", "I8TOU16(reg)", size=0)
+@thumb_isa.pattern("reg", "U8TOU16(reg)", size=0)
 def pattern_i8toi32(context, tree, c0):
     # TODO: do something?
     return c0
@@ -842,6 +846,10 @@ def pattern_i8toi32(context, tree, c0):
 @thumb_isa.pattern("reg", "I32TOU8(reg)", size=0)
 @thumb_isa.pattern("reg", "U32TOI8(reg)", size=0)
 @thumb_isa.pattern("reg", "U32TOU8(reg)", size=0)
+@thumb_isa.pattern("reg", "I16TOI8(reg)", size=0)
+@thumb_isa.pattern("reg", "I16TOU8(reg)", size=0)
+@thumb_isa.pattern("reg", "U16TOI8(reg)", size=0)
+@thumb_isa.pattern("reg", "U16TOU8(reg)", size=0)
 def pattern_i32toi8(context, tree, c0):
     # TODO: do something?
     return c0
